@@ -1,0 +1,44 @@
+//! Verification hook (cargo feature `verif`): `DbIndex::verif_report()` = entry counts of every map
+//! of every index. The exhaustive destructuring makes a new index break this build until it is
+//! accounted for.
+use super::DbIndex;
+
+impl DbIndex {
+    pub fn verif_report(&self) -> Vec<(&'static str, usize)> {
+        let Self {
+            decl_index,
+            references_index,
+            types_index,
+            modules_index,
+            members_index,
+            property_index,
+            signature_index,
+            diagnostic_index,
+            operator_index,
+            flow_index,
+            vfs,
+            file_dependencies_index,
+            metatable_index,
+            global_index,
+            json_schema_index,
+            emmyrc: _,
+        } = self;
+        let mut out = Vec::new();
+        out.extend(decl_index.verif_report());
+        out.extend(references_index.verif_report());
+        out.extend(types_index.verif_report());
+        out.extend(modules_index.verif_report());
+        out.extend(members_index.verif_report());
+        out.extend(property_index.verif_report());
+        out.extend(signature_index.verif_report());
+        out.extend(diagnostic_index.verif_report());
+        out.extend(operator_index.verif_report());
+        out.extend(flow_index.verif_report());
+        out.extend(vfs.verif_report());
+        out.extend(file_dependencies_index.verif_report());
+        out.extend(metatable_index.verif_report());
+        out.extend(global_index.verif_report());
+        out.extend(json_schema_index.verif_report());
+        out
+    }
+}
